@@ -112,6 +112,9 @@ static void run_pure(void)
                     rng_shuffle(&rc, perm, n);
                     int sz = e == 0 ? 0 : (e == 1 ? tol : (int)rng_below(&rc, (uint32_t)tol + 1));
                     if (sz && !(mask_of(perm, sz) & ((1u << c.k) - 1)) && e < 3) perm[0] = (int)rng_below(&rc, (uint32_t)c.k);   /* lose data so the backend really runs */
+                    /* two fixed sets: the first one / two data fragments lost, everything behind them present (survivors adjacent) */
+                    if (e == 2 && tol >= 1) { for (int i = 0; i < n; i++) perm[i] = i; sz = 1; }
+                    if (e == 3 && tol >= 2 && c.k >= 3) { for (int i = 0; i < n; i++) perm[i] = i; sz = 2; }
                     uint32_t erased = mask_of(perm, sz), present = full & ~erased;
                     int place = 1 + (e % 3);
                     int idx[PRES_MAX]; int cnt = list_of(present, n, idx);
